@@ -450,6 +450,7 @@ func init() {
 			{"commit-point", "the main mempool is refreshed against the new ledger - after the block was published and the height advanced - so that a transaction expiring with the block does not stay pooled (blocks proposed from the pool are accepted by the ledger)", ruleCommitPoint},
 			{"proposal-dominators", "ApplyPolicyToTxSet cuts the set where a block limit would be exceeded, testing the limits after adding the transaction that overflows them; the verifying side treats the limits as inclusive", ruleProposalDominators},
 			{"jump-opcode-agreement", "the script check applied on admission (transaction script and witness scripts) records as jump targets the operands of exactly the opcodes the interpreter jumps by, and its boundary test gates its success exit", ruleJumpAgreement},
+			{"conflict-records", "every iteration of StoreAsTransaction that writes per-signer conflict records rewrites the stub under the conflicting hash first (HasTransaction trusts the stub's height); the witness budget verifyTxWitnesses computes for re-verification subtracts what admission subtracts (size part and attribute fees)", ruleConflictStubAndBudget},
 			{"admit-dominators", "every admission check of verifyAndPoolTx (script, expiry, VUB window, policy, size, network fee, on-chain/conflict record, witnesses with the remaining fee, attributes) gates pool.Add on every CFG path", ruleAdmitDominators},
 		},
 		NotCovered: "the exact fee threshold (arithmetic), witness costs, block packing sizes, proposal validity after a wire round trip",
